@@ -75,7 +75,7 @@ func c03Alphabet(mode string) []Action {
 	return []Action{
 		cmd("SET", "s", "v"), cmd("SET", "n", "10"), cmd("SET", "f", "1.5"), cmd("SET", "vs", "v", "EX", "100"), cmd("RPUSH", "l", "a", "b"),
 		cmd("HSET", "h", "f", "1", "g", "x"), cmd("SADD", "t", "m"), cmd("ZADD", "z", "1.5", "m"), cmd("SELECT", "1"), cmd("DEL", "s"), cmd("EXPIRE", "s", "50"),
-		adv(1000), adv(200000), {K: "snap"}, {K: "snap-restart"}, cmd("SAVE"), cmd("LASTSAVE"),
+		adv(1000), adv(200000), {K: "snap"}, {K: "snap-restart"}, tcmd("SAVE"), cmd("LASTSAVE"), // SAVE is timed: two snapshots never share a millisecond on a real clock (the directory is named after it)
 	}
 }
 
